@@ -21,9 +21,18 @@ import typing as T
 from ..core import Undecided, attr_chain, norm, short, names_in, walk_no_nested
 from ..paths import enumerate_paths, Path
 from ..consteval import fold_expr
-from .c02_model import model_for, NodeModel, fixed_spellings, params_of, bind_call, unroll_tables, split_parallel, MPARSER
+from .c02_model import model_for, NodeModel, fixed_spellings, params_of, bind_call, unroll_tables, split_parallel, MPARSER, normal_methods
 
 PREV = 'self.previous'
+
+
+def _self_skip(fn: ast.FunctionDef) -> int:
+    """1 for a method taking self/cls, 0 for a staticmethod."""
+    return 0 if any((attr_chain(d) or '') == 'staticmethod' for d in fn.decorator_list) else 1
+
+
+def _own_params(fn: ast.FunctionDef) -> T.List[str]:
+    return params_of(fn)[_self_skip(fn):]
 
 
 class Tok:
@@ -131,7 +140,7 @@ class Analyzer:
         self.model = model or model_for(repo)
         self.fixed = fixed_spellings(repo, self.model)
         self.free = self.model.carrier_free()
-        self.methods = {n: split_parallel(unroll_tables(f, self.mod)) for n, f in self.mod.methods(cls).items()}   # constant-table loops enumerated
+        self.methods = {n: split_parallel(unroll_tables(f, self.mod)) for n, f in normal_methods(self.mod, cls).items()}   # constant-table loops enumerated
         self.primitive = self._find_primitive()
         self.ctor_wrapper = self._find_ctor_wrapper()
         self.exempt = self._exempt_kinds()
@@ -191,10 +200,23 @@ class Analyzer:
         synthesises itself (eof).  Read from the paths of the method, whatever loop form it uses."""
         fn = self.methods[self.primitive]
         out: T.Set[str] = set()
+        def synthesised(v: ast.AST, depth: int = 0) -> T.Optional[T.Set[str]]:
+            """kinds of the token `v` builds: `Token('k', ...)` / `Token(tid='k', ...)`, or a helper of the class whose every return is one"""
+            if not isinstance(v, ast.Call):
+                return None
+            if norm(v.func) == 'Token':
+                a = v.args[0] if v.args else next((k.value for k in v.keywords if k.arg == 'tid'), None)
+                return {a.value} if isinstance(a, ast.Constant) and isinstance(a.value, str) else None
+            ch = attr_chain(v.func) or ''
+            if ch.startswith('self.') and ch.count('.') == 1 and ch[5:] in self.methods and depth < 2:
+                rets = [r for r in walk_no_nested(self.methods[ch[5:]]) if isinstance(r, ast.Return)]
+                ks = [synthesised(r.value, depth + 1) if r.value is not None else None for r in rets]
+                if ks and all(k is not None for k in ks):
+                    return set().union(*ks)  # type: ignore[arg-type]
+            return None
         for st in walk_no_nested(fn):
-            if isinstance(st, ast.Assign) and any(attr_chain(t) == 'self.current' for t in st.targets) and isinstance(st.value, ast.Call) \
-                    and norm(st.value.func) == 'Token' and st.value.args and isinstance(st.value.args[0], ast.Constant):
-                out.add(st.value.args[0].value)
+            if isinstance(st, ast.Assign) and any(attr_chain(t) == 'self.current' for t in st.targets):
+                out |= synthesised(st.value) or set()
         for p in enumerate_paths(fn.body, unroll=1, handlers=True):
             if p.outcome == 'raise':
                 continue
@@ -246,7 +268,9 @@ class Analyzer:
             return 'tree'
         if isinstance(r, ast.Name) and r.id in ('int', 'float'):
             return 'consumer'
-        raise Undecided(f'{self.cls}.{n}: return annotation {short(r)} not understood')
+        # any other annotation (a token, an exception object, a record...): a procedure whose result carries nothing of the tree;
+        # whether that is true is checked where it returns (a token or fragment returned, or a token left pending, ends undecided)
+        return 'value'
 
     # -- fixpoint ---------------------------------------------------------------
     def run(self) -> None:
@@ -316,7 +340,7 @@ class Analyzer:
     def _entry_state(self, fn: ast.FunctionDef) -> St:
         st = St()
         st.toks.append(Tok(None, None, False, {PREV}, entry=True))
-        for i, a in enumerate((fn.args.posonlyargs + fn.args.args)[1:]):
+        for i, a in enumerate((fn.args.posonlyargs + fn.args.args)[_self_skip(fn):]):
             if a.annotation is not None and self.model._field_kind(a.annotation):
                 cn = [n for n in names_in(a.annotation) if n in self.model.classes]
                 st.res.append(Res(None, cn[0] if len(cn) == 1 else f'parameter {a.arg}', False, {a.arg}, param=i))
@@ -328,6 +352,9 @@ class Analyzer:
         for t in st.toks:
             if t.entry or t.done:
                 continue
+            if kind == 'value':
+                raise Undecided(f'{self.cls}.{self.fn}: leaves a consumed token pending and returns `{short(self.fnnode.returns)}`: '  # type: ignore[union-attr]
+                                'consumer or tree method?')
             if kind == 'consumer' and PREV in t.holders:
                 handover, hkind = True, t.kind
                 continue
@@ -347,7 +374,7 @@ class Analyzer:
         if isinstance(kind, frozenset):
             return 'of a kind in {' + ', '.join(sorted(kind)) + '}'
         if isinstance(kind, tuple) and kind and kind[0] == 'param':
-            ps = params_of(self.fnnode)[1:] if self.fnnode is not None else []
+            ps = _own_params(self.fnnode) if self.fnnode is not None else []
             return f'of the kind given by parameter `{ps[kind[1]]}`' if kind[1] < len(ps) else 'of a kind given by a parameter'
         return f'`{kind}`' if isinstance(kind, str) else '(kind unknown)'
 
@@ -428,6 +455,8 @@ class Analyzer:
                 return [st]
             out = []
             for s2, v in self.ev(s.value, st):
+                if v[0] == 'res' and self.kindof.get(self.fn) == 'value' and not s2.res[v[1]].vac:
+                    raise Undecided(f'{self.cls}.{self.fn}: returns a tree fragment but its return annotation `{short(self.fnnode.returns)}` names no node class')  # type: ignore[union-attr]
                 if v[0] == 'res':
                     s2.res[v[1]].done = True
                 elif v[0] == 'truth':
@@ -551,7 +580,7 @@ class Analyzer:
     def transfer(self, ri: int, root: str, st: St, node: ast.AST) -> None:
         j = st.res_of(root)
         if j is None:
-            if root in params_of(self.fnnode)[1:]:
+            if root in _own_params(self.fnnode):  # type: ignore[arg-type]
                 st.res[ri].done = True
                 return
             raise Undecided(f'{self.cls}.{self.fn}: `{short(node)}` stores a fragment into `{root}`, which is not a known fragment')
@@ -664,7 +693,19 @@ class Analyzer:
         ch = attr_chain(f)
         if ch == 'self.' + self.ctor_wrapper:
             if not e.args or not isinstance(e.args[0], ast.Name) or e.args[0].id not in self.model.classes:
-                raise Undecided(f'{self.cls}.{self.fn}: `{short(e)}`: node class is not a literal class name')
+                cands = self.class_candidates(e.args[0]) if e.args else None
+                if not cands:
+                    raise Undecided(f'{self.cls}.{self.fn}: `{short(e)}`: node class is not a literal class name')
+                # closed world: one successor state per row of the constant table the class is looked up in
+                forked: T.List[T.Tuple[St, T.Tuple[T.Any, ...]]] = []
+                for key, cname, keytok in cands:
+                    s0 = st.copy()
+                    if keytok is not None:
+                        for t in s0.toks:
+                            if t.site is keytok and isinstance(t.kind, frozenset) and key in t.kind:
+                                t.kind = key      # the key is the kind of the token that call consumed
+                    forked += self._ctor_call(cname, e, 1, s0, True)
+                return forked
             return self._ctor_call(e.args[0].id, e, 1, st, True)
         if isinstance(f, ast.Name) and f.id in self.model.classes:
             return self._ctor_call(f.id, e, 0, st, False)
@@ -716,6 +757,109 @@ class Analyzer:
             out.append((s2, self.NONE))
         return out
 
+    def _single_binding(self, name: str) -> T.Optional[ast.Assign]:
+        """The one statement of the current method that binds the local `name` (None when it is bound more than once or not by `=`)."""
+        stores = [x for x in ast.walk(self.fnnode) if isinstance(x, ast.Name) and x.id == name and not isinstance(x.ctx, ast.Load)]  # type: ignore[arg-type]
+        if len(stores) != 1 or name in params_of(self.fnnode):  # type: ignore[arg-type]
+            return None
+        for a in ast.walk(self.fnnode):  # type: ignore[arg-type]
+            if isinstance(a, ast.Assign) and len(a.targets) == 1 and any(x is stores[0] for x in ast.walk(a.targets[0])):
+                return a
+        return None
+
+    def _returns_consumed_tid(self, meth: str) -> bool:
+        """Every truthy value the consumer `meth` returns is a local bound once to `self.current.tid` (before the advance) and
+        tested `in <first parameter>` on that path: the returned string is the kind of the token it consumed, and a key of the argument."""
+        fn = self.methods.get(meth)
+        if fn is None or len(params_of(fn)) != 2:
+            return False
+        coll = params_of(fn)[1]
+        seen = False
+        for p in enumerate_paths(fn.body, unroll=1):
+            if p.outcome != 'return' or p.value is None or (isinstance(p.value, ast.Constant) and not p.value.value):
+                continue
+            v = p.value
+            if not isinstance(v, ast.Name):
+                return False
+            defs = [a for a in ast.walk(fn) if isinstance(a, ast.Assign) and any(isinstance(t, ast.Name) and t.id == v.id for t in a.targets)]
+            stores = [x for x in ast.walk(fn) if isinstance(x, ast.Name) and x.id == v.id and not isinstance(x.ctx, ast.Load)]
+            if len(defs) != 1 or len(stores) != 1 or norm(defs[0].value) != 'self.current.tid':
+                return False
+            if not any(e.kind == 'cond' and isinstance(e.node, ast.Compare) and ((e.val and norm(e.node) == f'{v.id} in {coll}')
+                                                                                or (not e.val and norm(e.node) == f'{v.id} not in {coll}')) for e in p.events):
+                return False
+            seen = True
+        return seen
+
+    def class_candidates(self, x: ast.AST) -> T.Optional[T.List[T.Tuple[str, str, T.Optional[ast.AST]]]]:
+        """Node classes an expression can denote when it is a lookup in a module-level constant table keyed by strings:
+        `TABLE[k]`; a local bound once to it; a local bound once by `a, b = TABLE[k]` (tuple rows); `rec.field` where `rec` is bound
+        once to `TABLE[k]` and the rows are calls of a NamedTuple class declaring `field`.  -> [(key, class, call that consumed
+        the token whose kind is the key | None)], None when the shape is anything else (finite domain the source declares)."""
+        pick: T.Callable[[ast.AST], T.Optional[ast.AST]] = lambda v: v
+        for _ in range(3):
+            if isinstance(x, ast.Name):
+                a = self._single_binding(x.id)
+                if a is None:
+                    return None
+                tg = a.targets[0]
+                if isinstance(tg, ast.Name):
+                    x = a.value
+                    continue
+                if isinstance(tg, (ast.Tuple, ast.List)) and all(isinstance(t, ast.Name) for t in tg.elts):
+                    i, n_ = [t.id for t in tg.elts].index(x.id), len(tg.elts)  # type: ignore[attr-defined]
+                    prev = pick
+                    pick = lambda v, i=i, n_=n_, prev=prev: (lambda w: w.elts[i] if isinstance(w, (ast.Tuple, ast.List)) and len(w.elts) == n_ else None)(prev(v))  # type: ignore[misc]
+                    x = a.value
+                    continue
+                return None
+            if isinstance(x, ast.Attribute) and isinstance(x.value, ast.Name):
+                attr = x.attr
+                mod = self.mod
+
+                def field(w: T.Optional[ast.AST], attr: str = attr) -> T.Optional[ast.AST]:
+                    if not (isinstance(w, ast.Call) and isinstance(w.func, ast.Name) and mod.has_cls(w.func.id)):
+                        return None
+                    k = mod.cls(w.func.id)
+                    if not any((attr_chain(b) or '').split('.')[-1] == 'NamedTuple' for b in k.bases):
+                        return None
+                    fields = [st.target.id for st in k.body if isinstance(st, ast.AnnAssign) and isinstance(st.target, ast.Name)]
+                    if attr not in fields or any(isinstance(q, ast.Starred) for q in w.args):
+                        return None
+                    for kw in w.keywords:
+                        if kw.arg == attr:
+                            return kw.value
+                    j = fields.index(attr)
+                    return w.args[j] if j < len(w.args) else None
+                prev2 = pick
+                pick = lambda v, prev2=prev2, field=field: field(prev2(v))  # type: ignore[misc]
+                x = x.value
+                continue
+            break
+        if not (isinstance(x, ast.Subscript) and isinstance(x.value, ast.Name) and self.mod.has_assign(x.value.id)):
+            return None
+        table = self.mod.assign_value(x.value.id)
+        if not isinstance(table, ast.Dict) or not table.keys or not all(isinstance(k, ast.Constant) and isinstance(k.value, str) for k in table.keys):
+            return None
+        stores = [n for n in ast.walk(self.mod.tree) if isinstance(n, ast.Name) and n.id == x.value.id and not isinstance(n.ctx, ast.Load)]
+        if len(stores) != 1:
+            return None
+        keytok: T.Optional[ast.AST] = None
+        if isinstance(x.slice, ast.Name):
+            ka = self._single_binding(x.slice.id)
+            if ka is not None and isinstance(ka.targets[0], ast.Name) and isinstance(ka.value, ast.Call):
+                ch = attr_chain(ka.value.func) or ''
+                if ch.startswith('self.') and ch[5:] in self.kindof and len(ka.value.args) == 1 and norm(ka.value.args[0]) == x.value.id \
+                        and self._returns_consumed_tid(ch[5:]):
+                    keytok = ka.value
+        out: T.List[T.Tuple[str, str, T.Optional[ast.AST]]] = []
+        for k, v in zip(table.keys, table.values):
+            c = pick(v)
+            if not (isinstance(c, ast.Name) and c.id in self.model.classes):
+                return None
+            out.append((k.value, c.id, keytok))  # type: ignore[union-attr]
+        return out
+
     def _bound(self, e: ast.Call, params: T.List[str], skip: int, st: St) -> T.List[T.Tuple[St, T.List[T.Any]]]:
         """Evaluate the arguments of `e` in source order and return their values aligned to `params` (position or keyword)."""
         b = bind_call(e, params, skip)
@@ -761,6 +905,9 @@ class Analyzer:
             cand = [i for i, t in enumerate(st.toks) if not t.done and not t.entry and t.kind == fixed]
             if cand:
                 self.materialise(cand[-1], st, node)
+            elif any(not t.done and not t.entry and isinstance(t.kind, frozenset) and fixed in t.kind for t in st.toks):
+                raise Undecided(f'{self.cls}.{self.fn}: `{short(node)}` is replayed as `{fixed}`; the pending token is one of a set of kinds '
+                                'that is not correlated with the class chosen')
             elif any(not t.done and not t.entry for t in st.toks):
                 other = [t for t in st.toks if not t.done and not t.entry][-1]
                 self.note_extra('keyword node without keyword', node, f'`{short(node)}` is replayed as `{fixed}` but the token pending here is {self._k(other.kind)}')
@@ -780,7 +927,7 @@ class Analyzer:
     def kind_from_expr(self, x: ast.AST) -> T.Any:
         if isinstance(x, ast.Constant) and isinstance(x.value, str):
             return x.value
-        ps = params_of(self.fnnode)[1:]  # type: ignore[arg-type]
+        ps = _own_params(self.fnnode)  # type: ignore[arg-type]
         if isinstance(x, ast.Name) and x.id in ps:
             return ('param', ps.index(x.id))
         key = norm(x)
@@ -842,7 +989,7 @@ class Analyzer:
 
     def apply(self, name: str, e: ast.Call, st: St, want: T.Optional[bool]) -> T.List[T.Tuple[St, T.Tuple[T.Any, ...]]]:
         out: T.List[T.Tuple[St, T.Tuple[T.Any, ...]]] = []
-        cparams = params_of(self.methods[name])[1:]
+        cparams = _own_params(self.methods[name])
         bound = bind_call(e, cparams)
         if bound is None:
             raise Undecided(f'{self.cls}.{self.fn}: cannot bind the arguments of `{short(e)}`')
